@@ -288,7 +288,12 @@ fn arc_case(ctx: &mut Ctx, index: u64, a: P, b: P, c: P, bufs: &mut CurveBuffers
             let th = ts + dir * range * f64::from(i) / 720.0;
             (ctr.0 + rad * th.cos(), ctr.1 + rad * th.sin())
         }).collect();
-        let nn = nexp.max(2.0);
+        // The library evaluates the point count in f32: `1 - 0.1/r` carries a rounding error of about
+        // 6e-8, i.e. a relative error of about 3e-7 * r in the step angle. When range/step is within that
+        // noise of an integer the count may legitimately come out one lower, so the bound uses the lower count.
+        let noise = 6e-7 * rad + 1e-6;
+        let n_low = if 2.0 * rad <= 0.1 { 2.0 } else { (range / (2.0 * (1.0 - 0.1 / rad).acos()) * (1.0 - noise)).ceil().max(2.0) };
+        let nn = n_low.min(nexp).max(2.0);
         let sag_tol = 0.1 * (nn / (nn - 1.0)).powi(2) * 1.02 + tol;
         let dev = directed(&exact, &path, sag_tol);
         if dev / sag_tol > worst {
